@@ -315,7 +315,13 @@ func firstDiffKind(m *mergeOut, got, want string) string {
 
 // compareDirection compares one direction's result with the model. prefix is the key prefix ("c29/merge", "c29/schema");
 // dirLabel qualifies keys where the direction is part of the input class ("" in the identical-schema stage).
-func compareDirection(l *limiter, prefix, dirLabel string, sc *scenario, m *mergeOut, res *dirResult, witness map[string]any) {
+func compareDirection(l *limiter, prefix, dirLabel string, sc *scenario, m *mergeOut, res *dirResult, shifted map[int64]bool, witness map[string]any) {
+	shiftMark := func(k int64) string {
+		if shifted[k] {
+			return colShiftMark
+		}
+		return ""
+	}
 	suffix := ""
 	if dirLabel != "" {
 		suffix = "/" + dirLabel
@@ -385,11 +391,11 @@ func compareDirection(l *limiter, prefix, dirLabel string, sc *scenario, m *merg
 			} else if wantConf.Ours == nil || wantConf.Theirs == nil {
 				class = "delete-vs-modify"
 			}
-			l.violation(prefix+"/conflict-missing/"+class+suffix, fmt.Sprintf("pk %d: the model records a conflict, dolt_conflicts_%s has none", k, sc.Base.Name),
+			l.violation(prefix+"/conflict-missing/"+class+shiftMark(k)+suffix, fmt.Sprintf("pk %d: the model records a conflict, dolt_conflicts_%s has none", k, sc.Base.Name),
 				w(map[string]any{"pk": k, "want_conflict": m.renderConflict(wantConf), "got_row": res.Rows[ks]}))
 			continue
 		case wantConf == nil && gotConf:
-			l.violation(prefix+"/conflict-spurious/"+rowShape(sc, m, k)+suffix, fmt.Sprintf("pk %d: dolt recorded a conflict where the model merges cleanly", k),
+			l.violation(prefix+"/conflict-spurious/"+rowShape(sc, m, k)+shiftMark(k)+suffix, fmt.Sprintf("pk %d: dolt recorded a conflict where the model merges cleanly", k),
 				w(map[string]any{"pk": k, "got_conflict": res.Conflicts[ks], "want_row": renderOrAbsent(k, m.Rows[k], cols)}))
 			continue
 		case wantConf != nil:
@@ -420,6 +426,39 @@ func compareDirection(l *limiter, prefix, dirLabel string, sc *scenario, m *merg
 			l.violation(prefix+"/merge-result-conflicts-flag"+suffix, fmt.Sprintf("dolt_merge returned conflicts=%s but %d conflict rows exist", res.MergeRow[2], len(res.Conflicts)), w(nil))
 		}
 	}
+}
+
+// colShiftVsDelete names the input class "theirs deleted a row that ours still has, while a base column sits at a
+// different non-key position in ours' schema than in theirs'" and returns the keys of such rows. In that situation
+// valueMerger.processBaseColumn (right == nil branch) resolves the left column's type through the right schema.
+const colShiftMark = "+theirs-deleted-row,column-positions-differ"
+
+func colShiftVsDelete(base, ours, theirs *mtable) map[int64]bool {
+	shift := false
+	for i, c := range ours.Cols {
+		if _, inBase := base.col(c.Name); !inBase {
+			continue
+		}
+		j := -1
+		for k, tc := range theirs.Cols {
+			if tc.Name == c.Name {
+				j = k
+			}
+		}
+		if i != j {
+			shift = true
+		}
+	}
+	keys := map[int64]bool{}
+	if !shift {
+		return keys
+	}
+	for k, b := range base.Rows {
+		if b != nil && ours.Rows[k] != nil && theirs.Rows[k] == nil {
+			keys[k] = true
+		}
+	}
+	return keys
 }
 
 // jsonNullMark returns "+json-null" when any version of row k holds SQL NULL in a JSON column (the input class of the
@@ -471,7 +510,7 @@ func unionKeys(sc *scenario) map[int64]bool {
 
 // compareSymmetry checks the swapped-sides clause directly on the two actual results: the same keys conflict, and every
 // key that does not conflict has the same row in both merged tables.
-func compareSymmetry(l *limiter, prefix string, sc *scenario, mLR, mRL *mergeOut, lr, rl *dirResult, witness map[string]any) {
+func compareSymmetry(l *limiter, prefix string, sc *scenario, mLR, mRL *mergeOut, lr, rl *dirResult, shifted map[int64]bool, witness map[string]any) {
 	// rows are rendered over each direction's merged columns, which may be ordered differently: re-key by column name
 	byName := func(m *mergeOut, s string) map[string]string {
 		f := strings.Split(s, "\x1f")
@@ -488,7 +527,11 @@ func compareSymmetry(l *limiter, prefix string, sc *scenario, mLR, mRL *mergeOut
 		_, c1 := lr.Conflicts[ks]
 		_, c2 := rl.Conflicts[ks]
 		if c1 != c2 {
-			l.violation(prefix+"/asymmetric-conflict", fmt.Sprintf("pk %d conflicts when merging right into left = %v, left into right = %v", k, c1, c2),
+			mark := ""
+			if shifted[k] {
+				mark = colShiftMark
+			}
+			l.violation(prefix+"/asymmetric-conflict"+mark+jsonNullMark(sc, k), fmt.Sprintf("pk %d conflicts when merging right into left = %v, left into right = %v", k, c1, c2),
 				map[string]any{"pk": k, "scenario": witness, "unspecified_by_statement": mLR.Unspec[k]})
 			continue
 		}
